@@ -200,7 +200,7 @@ func genSysHistory(rng *proto.Rng) sysIn {
 		}
 		run.InvAlt = rng.Chance(1, 8)
 		if len(run.FailMut)+len(run.FailGet)+len(run.FailInvRead) > 0 {
-			run.FailCode = proto.Pick(rng, []int{0, 0, 403, 422, 409})
+			run.FailCode = proto.Pick(rng, []int{0, 0, 403, 422, 409, 4091})
 		}
 		switch rng.Intn(16) {
 		case 0:
@@ -303,6 +303,18 @@ func sysHandWritten() []sysIn {
 		// the same in-memory manifest with an apply-time substitution is applied again after its source has changed
 		{Pre: pre, Runs: []sysRun{{Kind: "apply", Objs: []sysObj{{ID: soA.ID, Rev: 1}, soM}}, {Kind: "apply", Objs: []sysObj{{ID: soA.ID, Rev: 2}, soM}},
 			{Kind: "apply", Objs: []sysObj{{ID: soA.ID, Rev: 3}, soM}, Opts: sysOpts{SSA: true}}, {Kind: "destroy"}}},
+		// tracked objects that are invalid in a later run stay in the stored inventory — also when the inventory records statuses
+		// (an invalid object has no status record)
+		{Pre: pre, Runs: []sysRun{{Kind: "apply", Objs: []sysObj{soA, soB}, Opts: sysOpts{StatusAll: true}},
+			{Kind: "apply", Objs: []sysObj{soA, {ID: soB.ID, DepsRaw: "not/a/valid/ref"}}, Opts: sysOpts{SkipInvalid: true, StatusAll: true}},
+			{Kind: "apply", Objs: []sysObj{soA, {ID: soB.ID, Deps: []jid{{"ns1", "absent", "", "ConfigMap"}}}}, Opts: sysOpts{SkipInvalid: true, StatusAll: true}},
+			{Kind: "destroy", Opts: sysOpts{StatusAll: true}}}},
+		{Pre: pre, Runs: []sysRun{{Kind: "apply", Objs: []sysObj{soA, soD}},
+			{Kind: "destroy", Objs: []sysObj{}, Opts: sysOpts{StatusAll: true}, FailMut: []int{0}},
+			{Kind: "apply", Objs: []sysObj{soA, {ID: soD.ID, Deps: []jid{{"ns1", "absent", "", "ConfigMap"}}}}, Opts: sysOpts{SkipInvalid: true, StatusAll: true, NoPrune: true}}}},
+		// a DELETE answered 409 Conflict (the object was replaced under the run's feet) is a failed delete: what it depends on stays
+		{Pre: pre, Runs: []sysRun{{Kind: "apply", Objs: []sysObj{soA, soB, soC}}, {Kind: "destroy", FailMut: []int{0}, FailCode: 4091},
+			{Kind: "apply", Objs: []sysObj{soA}, FailMut: []int{1}, FailCode: 4091}, {Kind: "destroy", FailMut: []int{1}, FailCode: 4091}}},
 		// ids the inventory cannot store
 		{Pre: pre, Runs: []sysRun{{Kind: "apply", Objs: []sysObj{soA, {ID: jid{"ns1", "a_b", "", "ConfigMap"}}}}, {Kind: "apply", Objs: []sysObj{soA}},
 			{Kind: "apply", Objs: []sysObj{soA, {ID: jid{"", "x__y", "rbac.authorization.k8s.io", "ClusterRole"}}}, Opts: sysOpts{StatusAll: true}}, {Kind: "destroy"}}},
